@@ -396,14 +396,14 @@ class RefBroker:
             c['state'] = 'closing'
             return self.send(ch, spec.Channel.Close(reply_code=404, reply_text="NOT_FOUND - no exchange '%s'" % m.exchange,
                                                     class_id=60, method_id=40), reply=False)
-        routable = m.exchange == '' and m.routing_key in self.queues or (m.exchange != '' and fate != 'return-ack')
-        if fate == 'return-ack' or (m.mandatory and not routable and fate is None):
+        routable = m.exchange == '' and m.routing_key in self.queues or (m.exchange != '' and fate not in ('return-ack', 'return-nack'))
+        if fate in ('return-ack', 'return-nack') or (m.mandatory and not routable and fate is None):
             self.send_content(ch, spec.Basic.Return(reply_code=312, reply_text='NO_ROUTE', exchange=m.exchange,
                                                     routing_key=m.routing_key), m.props, m.body, reply=False)
         elif routable and m.exchange == '':
             self.queues[m.routing_key].append((m.props, m.body, m.exchange, m.routing_key))
         if c['confirm']:
-            if fate == 'nack':
+            if fate in ('nack', 'return-nack'):
                 self.send(ch, spec.Basic.Nack(delivery_tag=m.seq))
             else:
                 self.send(ch, spec.Basic.Ack(delivery_tag=m.seq))
